@@ -506,8 +506,45 @@ def _expected_effect(w, op, before):
     return (None, None)
 
 
+def _heap_probe():
+    """BinaryNode trees as the library's own constructor builds them (list_to_binarytree), far beyond the lengths of
+    the test fixtures: every node must expose exactly two slots, left/right must be those slots, every child must sit
+    in exactly one slot of its parent, and a later slot assignment must behave as on hand-built nodes"""
+    import bigtree
+    msgs = []
+    for n in list(range(1, 34)) + [63, 64, 65, 255, 256, 511, 512, 513, 600, 1023, 1024, 1100]:
+        root = bigtree.list_to_binarytree(list(range(1, n + 1)))
+        todo, seen = [root], 0
+        while todo:
+            x = todo.pop()
+            seen += 1
+            ch = x.children
+            if len(ch) != 2:
+                msgs.append(f"list_to_binarytree(1..{n}): node {x.node_name} exposes {len(ch)} child slots")
+                break
+            try:
+                if x.left is not ch[0] or x.right is not ch[1]:
+                    msgs.append(f"list_to_binarytree(1..{n}): left/right of node {x.node_name} are not its two slots")
+                    break
+            except Exception as e:  # noqa: BLE001
+                msgs.append(f"list_to_binarytree(1..{n}): reading left/right of node {x.node_name} raised {type(e).__name__}")
+                break
+            for c in ch:
+                if c is not None:
+                    if c.parent is not x or sum(1 for y in x.children if y is c) != 1:
+                        msgs.append(f"list_to_binarytree(1..{n}): child {c.node_name} does not sit in exactly one slot of its parent")
+                    todo.append(c)
+        if not msgs and seen != n:
+            msgs.append(f"list_to_binarytree(1..{n}): {seen} nodes reachable through the slots")
+        if msgs:
+            break
+    return msgs
+
+
 def oracle_history(data):
     """first-principles reading of C11 after every op of the history, on the real objects"""
+    if data.get("probe") == "heap":
+        return _heap_probe()
     if not data.get("asrt", 1):
         return []  # C11 is claimed for the default configuration; asrt=0 histories belong to C20
     msgs = []
@@ -803,6 +840,9 @@ def corpus():
         c.append({"cls": "binary", "n": 3, "asrt": 1, "inter": {"1": var},
                   "ops": [["P", 1, 0, "none"], ["L", 0, 4, "none"], ["P", 0, 1, "none"], ["C", 2, [2, None], "none"],
                           ["C", 0, [1, 1], "none"], ["R", 2, 3, "none"]]})
+    # one-off probe (the history itself is empty): BinaryNode trees built by list_to_binarytree, lengths 1..33 and
+    # around 64, 256, 512, 1024 (seeded C11-m14: a bulk path for long lists that wires a one-element slot list)
+    c.append({"cls": "binary", "n": 1, "asrt": 1, "ops": [["P", 0, None, "none"]], "probe": "heap"})
     # sort: only with two children
     c.append({"cls": "binary", "n": 3, "asrt": 1, "ops": [["P", 1, 0, "none"], ["S", 0, "s"], ["P", 2, 0, "none"], ["S", 0, "s"], ["S", 0, "k"],
                                           ["S", 0, "s"]]})
